@@ -15,7 +15,7 @@ TaskPlan apply_env(const TaskPlan &p, const EnvSpec &e) {
 
 static void init_ctx(TaskCtx &ctx, const TaskPlan &plan, bool log_events) {
     for (int i = 0; i < 7; i++) ctx.tuning[i] = plan.tuning[i];
-    ctx.garbage = (Garbage)plan.garbage; ctx.grng.reseed(0xabcdef12345ULL + plan.garbage); ctx.log_events = log_events;
+    ctx.garbage = (Garbage)(plan.garbage & 0xFF); ctx.clean_growth = (plan.garbage & G_CLEAN_GROWTH) != 0; ctx.grng.reseed(0xabcdef12345ULL + (plan.garbage & 0xFF)); ctx.log_events = log_events;
 }
 static void collect(TaskCtx &ctx, PlanRun &pr) {
     pr.evhash = ctx.evh.h; pr.steps = ctx.steps;
@@ -48,7 +48,7 @@ std::vector<PlanRun> run_plans_sequential(const std::vector<TaskPlan> &plans, co
     for (size_t i = 0; i < plans.size(); i++) {
         TaskPlan p = plans[i]; p.garbage = garbage;
         for (int k = 0; k < 7; k++) ctx.tuning[k] = p.tuning[k];
-        ctx.garbage = (Garbage)garbage; if (i == 0) ctx.grng.reseed(0x51ab5eedULL + garbage);
+        ctx.garbage = (Garbage)(garbage & 0xFF); ctx.clean_growth = (garbage & G_CLEAN_GROWTH) != 0; if (i == 0) ctx.grng.reseed(0x51ab5eedULL + (garbage & 0xFF));
         ctx.evh = Hash64(); uint64_t s0 = ctx.steps;
         dispatch_kind(p.dtype, [&](auto k) { run_world<decltype(k)>(&ctx, &p, &cfg, &out[i]); return 0; });
         out[i].evhash = ctx.evh.h; out[i].steps = ctx.steps - s0;
